@@ -843,11 +843,13 @@ func c18HeartbeatTable(k *c18State, cache *types.Named) bool {
 			case onTbl(ci, "Range"):
 				// snapshot: the callback copies (key, value) into the returned map and never stops early
 				a := eng.Args(ci)
-				mc, _ := a[0].(*ssa.MakeClosure)
+				// the callback: a literal, a method value or the literal built by a constructor (c18Callback);
+				// its last two parameters are the entry's key and value
+				cb, _ := c18Callback(k, a[0], func(ssa.Value) bool { return false })
 				ok := false
-				if mc != nil {
-					cb := mc.Fn.(*ssa.Function)
-					ok = len(cb.Params) == 2
+				if cb != nil && cb.Signature.Params().Len() == 2 && len(cb.Params) >= 2 {
+					pKey, pVal := cb.Params[len(cb.Params)-2], cb.Params[len(cb.Params)-1]
+					ok = true
 					copied := false
 					eng.Instrs(cb, func(ins ssa.Instruction) {
 						switch n := ins.(type) {
@@ -856,15 +858,15 @@ func c18HeartbeatTable(k *c18State, cache *types.Named) bool {
 								ok = false
 							}
 						case *ssa.MapUpdate:
-							if k.sl.DerivesFrom(n.Key, func(v ssa.Value) bool { return v == ssa.Value(cb.Params[0]) }) &&
-								k.sl.DerivesFrom(n.Value, func(v ssa.Value) bool { return v == ssa.Value(cb.Params[1]) }) {
+							if k.sl.DerivesFrom(n.Key, func(v ssa.Value) bool { return v == ssa.Value(pKey) }) &&
+								k.sl.DerivesFrom(n.Value, func(v ssa.Value) bool { return v == ssa.Value(pVal) }) {
 								copied = true
 							}
 						}
 					})
 					isCopy := func(i ssa.Instruction) bool {
 						u, isU := i.(*ssa.MapUpdate)
-						return isU && k.sl.DerivesFrom(u.Key, func(v ssa.Value) bool { return v == ssa.Value(cb.Params[0]) })
+						return isU && k.sl.DerivesFrom(u.Key, func(v ssa.Value) bool { return v == ssa.Value(pKey) })
 					}
 					ok = ok && copied && eng.ReachFromEntry(cb, eng.PathQuery{Target: eng.IsExit, Avoid: isCopy}) == nil
 				}
@@ -892,6 +894,7 @@ func c18HeartbeatTable(k *c18State, cache *types.Named) bool {
 
 func c18Sinks(k *c18State) (del, dis []c18Site) {
 	c := k.c
+	nDirect := map[*ssa.Function]int{}
 	for _, fn := range k.funcs {
 		if k.inStorePkgs(fn) {
 			continue
@@ -902,11 +905,16 @@ func c18Sinks(k *c18State) (del, dis []c18Site) {
 				a := eng.Args(ci)
 				s := c18Site{ci, fn, eng.Receiver(ci), a[0], ""}
 				lifted := k.lift(s, 0)
+				// one obligation per call of DeleteInstanceState, wherever it sits: a helper that is
+				// handed the store and the instance must forward unconditionally; a call written in
+				// place is judged where it stands (c18InstanceStates)
 				if len(lifted) != 1 || lifted[0].call != ci {
-					// fn is a helper: it must forward unconditionally
 					ci := ci
 					ok := eng.ReachFromEntry(fn, eng.PathQuery{Target: eng.IsExit, Avoid: func(i ssa.Instruction) bool { return i == ssa.Instruction(ci) }}) == nil
 					c.Check("R1", fn, "helper always calls DeleteInstanceState(instance) on its store", ci.Pos(), ok, "a path through the helper skips DeleteInstanceState: the in-flight counts of the dead instance stay in the global totals")
+				} else {
+					nDirect[fn]++
+					c.Pass("R1", fn, fmt.Sprintf("DeleteInstanceState(instance) called in place#%d", nDirect[fn]), ci.Pos(), "no forwarding helper between the pass and the store")
 				}
 				dis = append(dis, lifted...)
 			case k.isStoreCall(ci, "Delete"):
@@ -1411,22 +1419,82 @@ func c18Sweepers(k *c18State) {
 			return ok && pred(mi.X.Type())
 		})
 	}
+	// a registration is reported against the entry points it runs for: the function holding the
+	// Store itself, or — when the get-or-create block was merged into a helper all callers of
+	// which are known — every function that reaches it (one obligation per entry point and
+	// table, wherever the Store sits)
+	type regKey struct {
+		fn        *ssa.Function
+		construct string
+	}
+	type regOb struct {
+		pos    token.Pos
+		ok     bool
+		detail string
+	}
+	obs := map[regKey]*regOb{}
+	var order []regKey
+	report := func(r reg, construct, detail string) {
+		for _, a := range c18Anchors(r.fn) {
+			key := regKey{a, construct}
+			o := obs[key]
+			if o == nil {
+				o = &regOb{pos: r.pos, ok: true, detail: detail}
+				obs[key] = o
+				order = append(order, key)
+			}
+			o.ok = o.ok && allSwept[r.table]
+		}
+	}
 	found := 0
 	for _, r := range regs {
 		if storedType(r.val, func(t types.Type) bool { return implementsIface(t, k.gfc) }) {
 			found++
 			holders[r.owner] = true
-			c.Check("R1", r.fn, "flow controls registered in a swept table ("+shortName(r.table)+")", r.pos, allSwept[r.table], "a table that holds GlobalFlowControls must be iterated by DeleteInstanceState, otherwise the flow controls registered there keep the dead instance's count")
+			report(r, "flow controls registered in a swept table ("+shortName(r.table)+")", "a table that holds GlobalFlowControls must be iterated by DeleteInstanceState, otherwise the flow controls registered there keep the dead instance's count")
 		}
 	}
 	for _, r := range regs {
 		if storedType(r.val, func(t types.Type) bool { return holders[eng.TypeName(t)] }) {
-			c.Check("R1", r.fn, "upstreams registered in a swept table ("+shortName(r.table)+")", r.pos, allSwept[r.table], "a table that holds per-upstream flow-control tables must be iterated by DeleteInstanceState")
+			report(r, "upstreams registered in a swept table ("+shortName(r.table)+")", "a table that holds per-upstream flow-control tables must be iterated by DeleteInstanceState")
 		}
+	}
+	for _, key := range order {
+		o := obs[key]
+		c.Check("R1", key.fn, key.construct, o.pos, o.ok, o.detail)
 	}
 	if found == 0 {
 		c.Fail("R1", nil, "flow controls registered in a swept table", 0, "no registration of a GlobalFlowControl in a sync.Map found in the store packages")
 	}
+}
+
+// c18Anchors returns the functions a construct found in fn runs for: fn itself unless fn is
+// a helper shared by several call sites all of which are known (eng.LiftSites) — such a helper
+// stands for a block duplicated in each of its callers, and the construct is reported against
+// the anchors of the functions holding the call sites (transitively, depth ≤ LiftDepth), in a
+// canonical order. Merging a block duplicated in several entry points into one helper thus
+// keeps one obligation per entry point; a single-use helper remains its own anchor.
+func c18Anchors(fn *ssa.Function) []*ssa.Function {
+	seen := map[*ssa.Function]bool{}
+	var out []*ssa.Function
+	var up func(f *ssa.Function, depth int)
+	up = func(f *ssa.Function, depth int) {
+		f = c06Outermost(f)
+		sites := eng.Current.LiftSites(f)
+		if len(sites) < 2 || depth <= 0 {
+			if !seen[f] {
+				seen[f] = true
+				out = append(out, f)
+			}
+			return
+		}
+		for _, s := range sites {
+			up(s.Parent(), depth-1)
+		}
+	}
+	up(fn, eng.LiftDepth)
+	sort.Slice(out, func(i, j int) bool { return eng.FuncName(out[i]) < eng.FuncName(out[j]) })
+	return out
 }
 
 // c18FieldOfAddr returns the field name and the owning struct's type name of &x.f.
@@ -1440,6 +1508,86 @@ func c18FieldOfAddr(fa *ssa.FieldAddr) (field, typ string) {
 		return "", ""
 	}
 	return st.Field(fa.Field).Name(), eng.TypeName(t)
+}
+
+// c18Callback resolves the function value handed to an iterator to the function that runs for
+// each entry, together with the predicate recognising the instance inside that function:
+//
+//   - a function literal (written in place or bound to a variable assigned once, possibly
+//     captured by an enclosing literal): the instance is what it is in the enclosing function;
+//   - a method value x.m: the method; the instance is whatever derives from the receiver, provided
+//     the bound receiver derives from the instance;
+//   - the result of a call of a repository function every return of which hands out the same
+//     function literal (`forget := forgetInstance(instance)`): that literal; the instance is
+//     what derives from a parameter of the constructor bound to the instance at the call.
+func c18Callback(k *c18State, v ssa.Value, isInst func(ssa.Value) bool) (*ssa.Function, func(ssa.Value) bool) {
+	if a, isAlias := c13Alias(v); isAlias && a != nil {
+		v = a
+	}
+	switch x := v.(type) {
+	case *ssa.Function:
+		if x.Blocks == nil {
+			return nil, nil
+		}
+		return x, isInst
+	case *ssa.MakeClosure:
+		fn, _ := x.Fn.(*ssa.Function)
+		if fn == nil {
+			return nil, nil
+		}
+		if fn.Synthetic == "" {
+			return fn, isInst
+		}
+		m := c13FuncTarget(x)
+		if m == nil || m.Blocks == nil || len(m.Params) == 0 || len(x.Bindings) != 1 {
+			return nil, nil
+		}
+		recvIsInst := isInst(x.Bindings[0])
+		return m, func(w ssa.Value) bool {
+			return recvIsInst && k.sl.DerivesFrom(w, func(y ssa.Value) bool { return y == ssa.Value(m.Params[0]) })
+		}
+	case *ssa.Call:
+		mk := x.Call.StaticCallee()
+		if mk == nil || mk.Blocks == nil || mk.Pkg == nil || !eng.IsRepoPkg(mk.Pkg.Pkg.Path()) || mk.Signature.Results().Len() != 1 {
+			return nil, nil
+		}
+		var lit *ssa.Function
+		same := true
+		eng.Instrs(mk, func(ins ssa.Instruction) {
+			ret, ok := ins.(*ssa.Return)
+			if !ok || ret.Block() == mk.Recover {
+				return
+			}
+			rv := eng.ReturnResults(ret)[0]
+			if a, isAlias := c13Alias(rv); isAlias && a != nil {
+				rv = a
+			}
+			mc, _ := rv.(*ssa.MakeClosure)
+			var f *ssa.Function
+			if mc != nil {
+				f, _ = mc.Fn.(*ssa.Function)
+			}
+			if f == nil || f.Synthetic != "" || f.Parent() != mk || (lit != nil && lit != f) {
+				same = false
+				return
+			}
+			lit = f
+		})
+		if lit == nil || !same {
+			return nil, nil
+		}
+		return lit, func(w ssa.Value) bool {
+			return k.sl.DerivesFrom(w, func(y ssa.Value) bool {
+				p, isP := y.(*ssa.Parameter)
+				if !isP || p.Parent() != mk {
+					return false
+				}
+				i := c18ParamIndex(p)
+				return i >= 0 && i < len(x.Call.Args) && isInst(x.Call.Args[i])
+			})
+		}
+	}
+	return nil, nil
 }
 
 // c18SweepAll: on every path from fn's entry to its exits a step is executed, where a
@@ -1485,17 +1633,13 @@ func c18SweepAll(k *c18State, fn *ssa.Function, isInst func(ssa.Value) bool, ele
 			return eng.Receiver(ci) != ssa.Value(c06Outermost(fn).Params[0])
 		}
 		if eng.IsCall(ci, "(*sync.Map).Range") {
-			// the callback: a function literal written in place, or one bound to a local that is
-			// assigned once (`forget := func(k, v interface{}) bool {…}; m.Range(forget)`)
-			cbv := eng.Args(ci)[0]
-			if a, isAlias := c13Alias(cbv); isAlias && a != nil {
-				cbv = a
-			}
-			mc, _ := cbv.(*ssa.MakeClosure)
-			if mc == nil {
+			// the callback: a function literal written in place, one bound to a local that is
+			// assigned once (`forget := func(k, v interface{}) bool {…}; m.Range(forget)`), a method
+			// value, or the literal handed out by a constructor function (c18Callback)
+			cb, cbInst := c18Callback(k, eng.Args(ci)[0], isInst)
+			if cb == nil {
 				return false
 			}
-			cb := mc.Fn.(*ssa.Function)
 			stops := false
 			eng.Instrs(cb, func(i ssa.Instruction) {
 				if r, ok := i.(*ssa.Return); ok && (len(r.Results) != 1 || !eng.IsBoolConst(r.Results[0], true)) {
@@ -1506,7 +1650,7 @@ func c18SweepAll(k *c18State, fn *ssa.Function, isInst func(ssa.Value) bool, ele
 				why = "a Range callback can return false: the sweep stops at the first entry and the remaining upstreams / flow controls keep the dead instance's count"
 				return false
 			}
-			if len(cb.Params) != 2 {
+			if cb.Signature.Params().Len() != 2 || len(cb.Params) < 2 {
 				return false
 			}
 			// the ranged table: a field of the store (outermost) or of the current entry (nested)
@@ -1519,7 +1663,7 @@ func c18SweepAll(k *c18State, fn *ssa.Function, isInst func(ssa.Value) bool, ele
 					swept[tn+"."+f] = true
 				}
 			}
-			ok, w := c18SweepAll(k, cb, isInst, cb.Params[1], swept, depth+1)
+			ok, w := c18SweepAll(k, cb, cbInst, cb.Params[len(cb.Params)-1], swept, depth+1)
 			if w != "" {
 				why = w
 			}
@@ -1852,12 +1996,23 @@ func c18Labels(k *c18State) {
 		})
 		c.Check("R3", w.fn, fmt.Sprintf("instance label value is a condition's Spec.Instance#%d", per[w.fn]), w.u.Pos(), valOK, "the label must carry the name of the instance the condition belongs to (the selector is built from the heartbeat table's instance names)")
 		// the labelled object is saved afterwards
+		// (the Save may sit in a helper the tail of the function was moved into: its operand is then
+		// the helper's parameter, bound to the labelled object at the call that follows the label)
 		saved := false
-		for _, ci := range eng.Calls(w.fn) {
-			if k.isStoreCall(ci, "Save") {
+		for _, rf := range c.W.Region(w.fn) {
+			for _, ci := range eng.Calls(rf) {
+				if !k.isStoreCall(ci, "Save") {
+					continue
+				}
 				a := eng.Args(ci)
-				if len(a) == 2 && c18SameObject(a[1], w.obj) && eng.ReachAfter(w.u, eng.PathQuery{Target: func(i ssa.Instruction) bool { return i == ssa.Instruction(ci) }}) != nil {
-					saved = true
+				if len(a) != 2 || !c18SameObject(c07UpTo(c.W, a[1], w.fn), w.obj) {
+					continue
+				}
+				for _, site := range c08LiftTo(ci, w.fn, eng.LiftDepth) {
+					site := site
+					if eng.ReachAfter(w.u, eng.PathQuery{Target: func(i ssa.Instruction) bool { return i == site }}) != nil {
+						saved = true
+					}
 				}
 			}
 		}
